@@ -188,4 +188,64 @@ example :
     cbcHmacDecrypt false toyCipher (toyMac 32) 16 (zeros 32) (List.replicate 16 16 ++ List.replicate 16 1) (zeros 16) [] = .err aeadDecErr :=
   Lemmas.d5_witness
 
+/-! ### AES key wrap: the model's loops ARE RFC 3394 (added: the refinement was only compared by execution before) -/
+
+/-- The loops, for an ABSTRACT block function.  `Crypto.KeyWrap.wrapWith` / `unwrapWith` are the executable
+    transcription of the index form of RFC 3394 §2.2.1 / §2.2.2 (nested `for j`, `for i` over an array R[1..n],
+    t = n·j + i); `kwWrapPasses` / `kwUnwrapPasses` are the shape of the Rust chunk loops.  For EVERY block function
+    `enc` / `dec` that maps 128-bit blocks to 128-bit blocks (`ciph`, `inv` are the same functions on `ByteArray`),
+    every 64-bit initial value and every input — n = 0 and n = 1 included, bytes beyond the last complete 64-bit
+    block ignored on both sides — they compute the same bytes; unwrap with the integrity check included
+    (the guard `c.size % 8 ≠ 0 ∨ c.size < 8` is the specification's own). -/
+theorem kw_loops_refine_rfc3394 :
+    (∀ (ciph : ByteArray → ByteArray) (enc : Bytes → Bytes), (∀ b, (ciph b).toList = enc b.toList) →
+      (∀ b, b.length = 16 → (enc b).length = 16) → ∀ (iv plain : ByteArray), iv.size = 8 →
+      (KeyWrap.wrapWith ciph iv plain).toList =
+        (kwWrapPasses enc (plain.size / 8) 6 0 iv.toList (Cbc.chunks 8 plain.toList)).1 ++
+        (kwWrapPasses enc (plain.size / 8) 6 0 iv.toList (Cbc.chunks 8 plain.toList)).2.flatten) ∧
+    (∀ (inv : ByteArray → ByteArray) (dec : Bytes → Bytes), (∀ b, (inv b).toList = dec b.toList) →
+      (∀ b, b.length = 16 → (dec b).length = 16) → ∀ (iv c : ByteArray),
+      (KeyWrap.unwrapWith inv iv c).map (·.toList) =
+        if c.size % 8 ≠ 0 ∨ c.size < 8 then none
+        else if (kwUnwrapPasses dec (c.size / 8 - 1) 6 0 (c.toList.take 8) (Cbc.chunks 8 (c.toList.drop 8))).1 = iv.toList
+          then some (kwUnwrapPasses dec (c.size / 8 - 1) 6 0 (c.toList.take 8) (Cbc.chunks 8 (c.toList.drop 8))).2.flatten
+          else none) :=
+  ⟨Lemmas.wrapWith_refines, Lemmas.unwrapWith_refines⟩
+
+/-- `encrypt_in_place` / `decrypt_in_place` of the model against the specification, for every lawful block cipher,
+    every key and EVERY input: wrap returns exactly the RFC 3394 wrap of the input under the default IV (for every
+    accepted input, i.e. every length that is a multiple of 8, the empty input included); unwrap returns the key data
+    exactly when the specification does and is an `Encryption` error otherwise (the length message for a length that
+    is not a multiple of 8).  `Lemmas.liftBA f b = (f b.toList).toByteArray`. -/
+theorem kw_model_refines_rfc3394 (C : BlockCipher) (hC : C.Lawful) (key : Bytes) :
+    (∀ p : Bytes, p.length % 8 = 0 →
+      kwEncrypt C key p [] [] =
+        .ok ((KeyWrap.wrapWith (Lemmas.liftBA (C.enc key)) KeyWrap.defaultIV p.toByteArray).toList, p.length + 8)) ∧
+    (∀ c : Bytes,
+      kwDecrypt C key c [] [] =
+        match KeyWrap.unwrapWith (Lemmas.liftBA (C.dec key)) KeyWrap.defaultIV c.toByteArray with
+        | some p => .ok p.toList
+        | none => .err ⟨.Encryption, if c.length % 8 ≠ 0 then .kwLen else .default⟩) :=
+  ⟨fun p hp => Lemmas.kwEncrypt_is_rfc3394 C hC key p hp, fun c => Lemmas.kwDecrypt_is_rfc3394 C hC key c⟩
+
+/-- The converse round trip: whatever unwrap accepts is the wrap of what it returns.  It needs one law that
+    `BlockCipher.Lawful` does not contain — encryption inverts decryption (true of a permutation such as AES) —
+    stated here as the explicit hypothesis `hed`. -/
+theorem kw_wrap_unwrap (C : BlockCipher) (hC : C.Lawful) (hed : ∀ k b, b.length = 16 → C.enc k (C.dec k b) = b)
+    (key c p : Bytes) (h : kwDecrypt C key c [] [] = .ok p) : kwEncrypt C key p [] [] = .ok (c, c.length) :=
+  Lemmas.kw_wrap_unwrap C hC hed key c p h
+
+/-- non-vacuity: the lifted block function meets the hypotheses of `kw_loops_refine_rfc3394`; `hed` holds for the
+    toy cipher together with `Lawful`; the specification side of `kw_model_refines_rfc3394` really accepts something -/
+example (f : Bytes → Bytes) : ∀ b, (Lemmas.liftBA f b).toList = f b.toList := Lemmas.liftBA_toList f
+example : toyCipher.Lawful ∧ ∀ k b, b.length = 16 → toyCipher.enc k (toyCipher.dec k b) = b :=
+  ⟨Lemmas.toyCipher_lawful, fun k b _ => Lemmas.toyCipher_enc_dec k b⟩
+example : ∃ c p, KeyWrap.unwrapWith (Lemmas.liftBA (toyCipher.dec [5])) KeyWrap.defaultIV (List.toByteArray c) = some p := by
+  obtain ⟨b, _, _, h⟩ := Lemmas.kw_roundtrip toyCipher Lemmas.toyCipher_lawful [5] (zeros 16) (by decide)
+  have := (kw_model_refines_rfc3394 toyCipher Lemmas.toyCipher_lawful [5]).2 b
+  rw [h] at this
+  cases hu : KeyWrap.unwrapWith (Lemmas.liftBA (toyCipher.dec [5])) KeyWrap.defaultIV (List.toByteArray b) with
+  | some p => exact ⟨b, p, hu⟩
+  | none => rw [hu] at this; cases this
+
 end Askar.Aead
